@@ -5,3 +5,4 @@
 ./check --selftest mutants s_C18a_A s_C18a_B s_C18b_A s_C18b_B s_C18c_A s_C18c_B s_C18d_A s_C18d_B s_C18e_A s_C18e_B s_C18f_A s_C18f_B  m23 m24 m25 m26
 ./check --selftest mutants s_C01a_A s_C01a_B s_C01b_A s_C01b_B s_C01c_A s_C01c_B s_C01d_A s_C01d_B s_C01e_A s_C01e_B s_C01f_A s_C01f_B s_C01g_A s_C01g_B s_C01h_A s_C01h_B s_C01i_A s_C01i_B  m13 i04
 ./check --selftest mutants s_C01j_A s_C01j_B s_C05f_A s_C05f_B s_C06g_A s_C06g_B s_C07g_A s_C07g_B s_C13j_A s_C13j_B s_C18g_A s_C18g_B
+./check --selftest mutants s_C01k_A s_C05g_A s_C05g_B s_C06h_A s_C06h_B s_C07h_A s_C07h_B s_C13k_A s_C13k_B
